@@ -47,7 +47,7 @@ def _run(c, prop):
         c.cov['traces_validated_against_impl'] += pr['completed']
         c.cov['evaluations'] += pr['executed']
         c.cov['samples'] += pr['samples'][:1]
-    for want, mode in (('C04', 'pubunsubprobe'), ('C05', 'connectcloseprobe')):
+    for want, mode in (('C04', 'pubunsubprobe'), ('C05', 'connectcloseprobe'), ('C07', 'connectcloseprobe')):
         if prop == want:
             pr = c.harness(binp, mode, {'n': 3 if quick else 10}, timeout=120)
             c.absorb(pr)
